@@ -136,6 +136,31 @@ func (d *Driver) snapCompact(n *AppNode) {
 	}
 }
 
+// deliverSel delivers the oldest in-flight message matching the selector, ignoring holds.
+func (d *Driver) deliverSel(sel MsgSel) bool { return d.c.Do(Step{Act: "Deliver", Sel: &sel}) }
+
+func (d *Driver) releaseHolds() { d.holdTypes = map[pb.MessageType]bool{} }
+
+// runNode lets one node work through its Ready pipeline and storage threads.
+func (d *Driver) runNode(id uint64) {
+	for k := 0; k < 6; k++ {
+		n := d.c.up(id)
+		if n == nil {
+			return
+		}
+		did := d.c.Do(Step{Act: "ProcessReady", Node: id})
+		for d.c.up(id) != nil && len(n.AppendQ) > 0 && !d.frozenAppend[id] && d.c.Do(Step{Act: "AppendThread", Node: id}) {
+			did = true
+		}
+		for d.c.up(id) != nil && len(n.ApplyQ) > 0 && !d.frozenApply[id] && d.c.Do(Step{Act: "ApplyThread", Node: id}) {
+			did = true
+		}
+		if !did {
+			return
+		}
+	}
+}
+
 type scenario struct {
 	name string
 	run  func(d *Driver)
@@ -168,22 +193,45 @@ func scStaleLeader(d *Driver) {
 	if len(oth) >= 3 && pct(d.r, 40) {
 		group = append(group, d.pick(oth))
 	}
-	if pct(d.r, 40) { // some messages still in flight when the partition starts
+	stalled := pct(d.r, 50)
+	if stalled {
+		// the old leader has accepted a Ready with new entries but its disk is slow:
+		// the entries stay unstable while the world moves on
+		d.frozenReady[l.ID] = true
+		d.frozenAppend[l.ID] = true
+		for k := 0; k < 1+d.r.Intn(3); k++ {
+			if d.c.Do(Step{Act: "Propose", Node: l.ID, Pid: d.nextPid, Psz: d.r.Intn(20)}) {
+				d.nextPid++
+			}
+		}
+		if pct(d.r, 70) {
+			d.c.Do(Step{Act: "Ready", Node: l.ID})
+			if l.Cfg.Async {
+				d.c.Do(Step{Act: "Send", Node: l.ID})
+			}
+		}
+	} else if pct(d.r, 40) { // some messages still in flight when the partition starts
 		d.propose(l, 1+d.r.Intn(2), false)
 	}
 	d.isolate(group)
 	p := calm
 	p.Tick, p.Propose, p.Read, p.Dup, p.Campaign = 30, 6, 4, 3, 1
 	d.with(p, 80+d.r.Intn(120))
-	if pct(d.r, 50) {
+	if !stalled && pct(d.r, 50) {
 		if n := d.c.up(l.ID); n != nil {
 			d.propose(n, 1+d.r.Intn(2), false)
 		}
 	}
 	if l2 := d.leader(); l2 != nil && l2.ID != l.ID {
 		d.propose(l2, 1+d.r.Intn(3), false)
+		d.with(calm, 20+d.r.Intn(30))
 	}
 	d.heal()
+	if stalled {
+		// the new leader's traffic reaches the old one before its old write completes
+		d.with(calm, 10+d.r.Intn(30))
+		d.unfreeze()
+	}
 	p.Tick = 10
 	d.with(p, 60+d.r.Intn(80))
 }
@@ -200,36 +248,75 @@ func scLaggingSnapshot(d *Driver) {
 		return
 	}
 	f := d.pick(oth)
-	if pct(d.r, 30) { // a divergent tail on the lagging node first
-		d.settle(10)
+	d.propose(l, 1+d.r.Intn(2), false)
+	d.settle(20 + d.r.Intn(30))
+	if pct(d.r, 40) {
+		// the lagging node is the deposed leader, with an unreplicated divergent tail
+		f = l.ID
+		d.isolate([]uint64{f})
+		d.propose(l, 1+d.r.Intn(4), false)
+		d.runNode(f)
+		p := calm
+		p.Tick = 30
+		d.with(p, 100+d.r.Intn(60))
+		l = d.leader()
+		if l == nil || l.ID == f {
+			d.heal()
+			d.settle(80)
+			return
+		}
+	} else {
+		d.isolate([]uint64{f})
 	}
-	d.isolate([]uint64{f})
+	if d.c.Nodes[f].Cfg.Async && pct(d.r, 50) {
+		d.frozenApply[f] = true // its apply thread is slow as well
+	}
 	d.propose(l, 3+d.r.Intn(5), pct(d.r, 40))
 	d.settle(40 + d.r.Intn(40))
 	if n := d.c.up(l.ID); n != nil {
 		d.snapCompact(n)
 	}
+	// snapshots are slow to travel: they stay in the network while everything else flows
+	d.holdTypes[pb.MsgSnap] = pct(d.r, 60)
 	d.heal()
 	p := calm
-	p.Dup, p.Drop, p.RepSnap, p.Propose, p.Tick = 8, 3, 5, 4, 10
+	p.Dup, p.Drop, p.RepSnap, p.Propose, p.Tick = 6, 2, 6, 4, 10
 	for round := 0; round < 2+d.r.Intn(3); round++ {
 		d.with(p, 20+d.r.Intn(40))
-		if pct(d.r, 50) {
-			if n := d.leader(); n != nil {
-				d.propose(n, 1+d.r.Intn(3), false)
-				d.settle(10 + d.r.Intn(20))
-				d.snapCompact(n)
-			}
+		if n := d.leader(); n != nil && pct(d.r, 60) {
+			d.propose(n, 1+d.r.Intn(3), false)
+			d.settle(10 + d.r.Intn(20))
+			d.snapCompact(n)
 		}
-		if pct(d.r, 30) {
+		if pct(d.r, 40) {
 			d.frozenReady[f] = !d.frozenReady[f]
 		}
 		if pct(d.r, 30) {
 			d.frozenAppend[f] = !d.frozenAppend[f]
 		}
 	}
+	// release the delayed snapshots newest first (reordering), possibly while the
+	// follower has not yet handled the previous one
+	if d.holdTypes[pb.MsgSnap] {
+		d.releaseHolds()
+		var snaps []*NetMsg
+		for _, nm := range d.c.Net {
+			if nm.M.GetType() == pb.MsgSnap {
+				snaps = append(snaps, nm)
+			}
+		}
+		d.frozenReady[f] = pct(d.r, 60)
+		d.frozenAppend[f] = d.frozenReady[f]
+		for k := len(snaps) - 1; k >= 0; k-- {
+			d.c.Do(Step{Act: "Deliver", Mid: snaps[k].Mid, Keep: pct(d.r, 20)})
+			if pct(d.r, 30) {
+				d.with(calm, 1+d.r.Intn(5))
+			}
+		}
+	}
+	d.with(p, 20)
 	d.unfreeze()
-	d.with(p, 60)
+	d.with(p, 80)
 }
 
 // membership changes are committed while one node's application lags; that
@@ -245,14 +332,27 @@ func scConfLaggingApplier(d *Driver) {
 	}
 	x := d.pick(oth)
 	for _, id := range d.c.IDs { // start joiners
-		if !d.c.Nodes[id].Created && pct(d.r, 80) {
+		if !d.c.Nodes[id].Created {
 			d.c.Do(Step{Act: "Boot", Node: id})
 		}
 	}
+	d.settle(10)
+	// node x stops applying (its application lags) but keeps persisting and acknowledging
 	if d.c.Nodes[x].Cfg.Async {
 		d.frozenApply[x] = true
 	} else {
-		d.frozenReady[x] = pct(d.r, 50)
+		// sync mode: it holds on to one accepted Ready
+		d.frozenReady[x] = true
+	}
+	if pct(d.r, 50) { // a backlog of ordinary entries in front of the conf change
+		d.propose(l, 2+d.r.Intn(4), pct(d.r, 50))
+		d.settle(20)
+	}
+	joiners := []uint64{}
+	for _, id := range d.c.IDs {
+		if !d.c.Nodes[id].Cfg.Initial {
+			joiners = append(joiners, id)
+		}
 	}
 	nChanges := 1 + d.r.Intn(3)
 	for k := 0; k < nChanges; k++ {
@@ -262,18 +362,15 @@ func scConfLaggingApplier(d *Driver) {
 		}
 		ccs := d.ccCandidates()
 		cc := ccs[d.r.Intn(len(ccs))]
-		if pct(d.r, 60) { // prefer growing the group
-			for _, id := range d.c.IDs {
-				if !contains(ld.RN.Status().Config.Voters.IDs(), id) && pct(d.r, 70) {
-					cc = fmt.Sprintf("%s:v%d", []string{"auto", "v1", "implicit", "explicit"}[d.r.Intn(4)], id)
-					break
-				}
-			}
+		if k < len(joiners) && pct(d.r, 75) { // prefer growing the group, one voter at a time
+			cc = fmt.Sprintf("%s:v%d", []string{"auto", "v1", "auto", "explicit"}[d.r.Intn(4)], joiners[k])
 		}
 		if d.c.Do(Step{Act: "ProposeConfChange", Node: ld.ID, Pid: d.nextPid, CC: cc}) {
 			d.nextPid++
 		}
-		d.settle(30 + d.r.Intn(50))
+		d.settle(40 + d.r.Intn(50))
+		d.maintainSnapshots()
+		d.settle(30 + d.r.Intn(30))
 		if pct(d.r, 40) {
 			d.propose(ld, 1, false)
 		}
@@ -284,18 +381,25 @@ func scConfLaggingApplier(d *Driver) {
 			d.settle(20)
 		}
 	}
-	// the lagging node handles exactly one more Ready at most, then campaigns
-	if pct(d.r, 50) {
+	if !d.c.Nodes[x].Cfg.Async && pct(d.r, 60) {
+		// sync mode: x takes one Ready (the committed entries are handed out) but does not apply yet
+		d.frozenReady[x] = false
 		d.c.Do(Step{Act: "Ready", Node: x})
+		d.frozenReady[x] = true
 	}
-	if pct(d.r, 60) {
-		side := []uint64{x}
-		for _, o := range d.others(x) {
-			if o != l.ID && pct(d.r, 50) {
-				side = append(side, o)
-			}
+	// x and some of the old members are cut off from the rest; x is pushed to campaign
+	side := []uint64{x}
+	for _, o := range d.others(x) {
+		if d.c.Nodes[o].Cfg.Initial && o != l.ID && pct(d.r, 70) {
+			side = append(side, o)
 		}
+	}
+	if pct(d.r, 75) {
 		d.isolate(side)
+	}
+	if ld := d.leader(); ld != nil && pct(d.r, 60) {
+		d.propose(ld, 1+d.r.Intn(2), false)
+		d.with(calm, 20+d.r.Intn(30))
 	}
 	for k := 0; k < 1+d.r.Intn(3); k++ {
 		if pct(d.r, 50) {
@@ -306,12 +410,15 @@ func scConfLaggingApplier(d *Driver) {
 			}
 		}
 		p := calm
-		p.Propose, p.Campaign, p.Tick = 4, 1, 10
+		p.Propose, p.Campaign, p.Tick = 5, 1, 8
 		d.with(p, 30+d.r.Intn(40))
 	}
-	if ld := d.leader(); ld != nil {
-		d.propose(ld, 2, false)
+	for _, n := range d.upNodes() {
+		if n.RN.BasicStatus().RaftState == raft.StateLeader {
+			d.propose(n, 1+d.r.Intn(2), false)
+		}
 	}
+	d.with(calm, 40)
 	d.unfreeze()
 	d.heal()
 	d.settle(120)
@@ -433,37 +540,31 @@ func scPagination(d *Driver) {
 	oth := d.others(l.ID)
 	for round := 0; round < 2+d.r.Intn(3); round++ {
 		ld := d.leader()
-		if ld == nil {
+		if ld == nil || len(oth) == 0 {
 			break
 		}
-		var slow uint64
-		if len(oth) > 0 && pct(d.r, 70) {
-			slow = d.pick(oth)
-			d.frozenReady[slow] = true
-			d.frozenAppend[slow] = pct(d.r, 50)
-		}
-		d.propose(ld, 2+d.r.Intn(5), true)
-		d.with(calm, 30+d.r.Intn(40))
-		if slow != 0 {
-			// let it persist a little at a time while more arrives
-			d.unfreeze()
-			for k := 0; k < 3; k++ {
-				if n := d.c.up(slow); n != nil {
-					if st := nextReadyStep(n); st != "" {
-						d.c.Do(Step{Act: st, Node: slow})
-					}
-				}
-				d.propose(ld, 1, true)
-				d.with(calm, 3+d.r.Intn(6))
-			}
-		}
-		if pct(d.r, 30) {
-			d.isolate([]uint64{d.pick(d.c.IDs)})
-			d.with(calm, 30)
-			d.heal()
-		}
+		f := d.pick(d.others(ld.ID))
+		// f receives and persists a few entries of mixed size but does not learn that they
+		// are committed; it is then cut off while the others go on
+		d.holdTypes[pb.MsgHeartbeat] = true
+		d.propose(ld, 2+d.r.Intn(3), true)
+		d.with(calm, 10+d.r.Intn(25))
+		d.isolate([]uint64{f})
+		d.releaseHolds()
+		d.with(calm, 20+d.r.Intn(20))
+		d.propose(ld, 1+d.r.Intn(2), pct(d.r, 30))
+		d.with(calm, 20+d.r.Intn(20))
+		// reconnect: the append carrying the newer entry and commit index may be handled
+		// before f gets to its next Ready
+		d.frozenReady[f] = pct(d.r, 70)
+		d.frozenAppend[f] = d.frozenReady[f] && pct(d.r, 50)
+		d.heal()
+		d.with(calm, 10+d.r.Intn(30))
+		d.unfreeze()
+		d.with(calm, 30+d.r.Intn(30))
 	}
 	d.unfreeze()
+	d.releaseHolds()
 	d.settle(100)
 }
 
@@ -495,6 +596,9 @@ func scTransfer(d *Driver) {
 		d.with(calm, 20+d.r.Intn(30))
 	}
 	d.heal()
+	if hold && pct(d.r, 60) {
+		d.deliverSel(MsgSel{Type: "TimeoutNow", To: t}) // the delayed take-over order arrives first
+	}
 	p.Dup = 5
 	d.with(p, 60+d.r.Intn(60))
 	if pct(d.r, 40) {
@@ -540,7 +644,10 @@ func scReads(d *Driver) {
 		if d.c.Do(Step{Act: "ProposeConfChange", Node: l.ID, Pid: d.nextPid, CC: cc}) {
 			d.nextPid++
 		}
-		d.with(p, 40+d.r.Intn(40))
+		d.with(calm, 5+d.r.Intn(50))
+		if pct(d.r, 50) {
+			d.runNode(l.ID) // the leader itself is up to date with the change
+		}
 		d.isolate([]uint64{l.ID})
 		p.Tick = 30
 		d.with(p, 80+d.r.Intn(60))
